@@ -43,6 +43,59 @@ Theorem C09_reject_only_when_horizon_full : forall p pre el s' w,
 Proof. exact reject_horizon_full. Qed.
 Print Assumptions C09_reject_only_when_horizon_full.
 
+(** MQTT limiters (timeout 0), arbitrary non-negative packet sizes: every admitted packet
+    found strictly less than the limit already admitted in its period - so per period at
+    most [limit] unit requests are admitted and admitted bytes exceed bytesRate by less than
+    one packet. Single-dimension limiter (requestRate only / bytesRate only): *)
+Theorem C09_mqtt_single : forall p ops,
+  valid p -> pT p = 0 -> nondecr_ops 0 ops -> hist_ok p (snd (run_hist p rl0 ops [])).
+Proof. exact mqtt_single_limit. Qed.
+Print Assumptions C09_mqtt_single.
+
+(** both rates set: the two-dimensional limiter [macquire] on [1; bytes] *)
+Theorem C09_mqtt_multi : forall P L0 L1 ops,
+  0 < P -> 0 < L0 -> 0 < L1 -> nondecr_ops 0 ops ->
+  hist2_ok L0 L1 (mrun_hist P L0 L1 0 0 0 ops []).
+Proof. exact mqtt_multi_limit. Qed.
+Print Assumptions C09_mqtt_multi.
+
+(** requests to URLs that match no rule are never limited (and touch no limiter) *)
+Theorem C09_unmatched_url_unlimited : forall h now lims matches i,
+  existsb (fun b : bool => b) matches = false ->
+  flt_handle_aux h now lims matches i = (h, FPass 0 None).
+Proof. exact handle_unmatched. Qed.
+Print Assumptions C09_unmatched_url_unlimited.
+
+(** reloading with an unchanged rule (same URL rule, same policy) keeps the limiter object
+    with its accumulated state; no limiter object is modified by the reload and the previous
+    generation keeps its references (ideal = without the pinned `prev.rl = nil` defect) *)
+Theorem C09_reload_keeps_state : forall snew sold now urls h oldl next h' r o n pk,
+  reload_urls ideal snew sold now urls h oldl next = (h', r, o, n, pk) ->
+  (forall x, In x oldl -> x <> None) ->
+  pk = false /\ o = oldl /\ next <= n /\
+  (forall k, k < next -> hget h' k = hget h k) /\
+  List.length r = List.length urls /\
+  (forall j u, nth_error urls j = Some u ->
+     forall i k, find_prev snew sold u (combine (fs_urls sold) oldl) 0 = Some (i, Some k) ->
+     nth_error r j = Some (Some k)).
+Proof. exact reload_ideal. Qed.
+Print Assumptions C09_reload_keeps_state.
+
+(** the pinned code (quirk on) loses the carried-over state: Inherit panics on a spec with
+    two identical rules (witness of KF-C09-rl-inherit-nil-limiter) *)
+Theorem C09_refuted_rl_inherit_steals_limiter :
+  exists s now, let q := {| q_rl_inherit_steals_limiter := true |} in
+    frun q fworld0 [FInit s 0; FInherit s 0 now] = [OGen [Some 0; Some 1]; OInheritPanic] /\
+    frun ideal fworld0 [FInit s 0; FInherit s 0 now] = [OGen [Some 0; Some 1]; OGen [Some 0; Some 0]].
+Proof.
+  exists {| fs_policies := [{| fp_name := "p0"; fp_T := "3ms"; fp_P := "1ms"; fp_L := 3; fp_Tns := 3000000; fp_Pns := 1000000 |}];
+            fs_default := "p0";
+            fs_urls := [{| fu_methods := []; fu_exact := "/a"; fu_prefix := ""; fu_regex := ""; fu_ref := "p0" |};
+                        {| fu_methods := []; fu_exact := "/a"; fu_prefix := ""; fu_regex := ""; fu_ref := "p0" |}] |}, 1000.
+  vm_compute. split; reflexivity.
+Qed.
+Print Assumptions C09_refuted_rl_inherit_steals_limiter.
+
 (** non-vacuity: the hypotheses are satisfiable by a concrete non-trivial history *)
 Example C09_nonvacuous :
   let p := {| pT := 25; pP := 10; pL := 2 |} in
@@ -50,3 +103,8 @@ Example C09_nonvacuous :
   map (fun o => match o with Some x => x | None => -1 end) (slots p rl0 [0; 0; 0; 3; 3; 3; 3; 31])
     = [0; 1; 2; 3; 4; 5; -1; 6].
 Proof. cbv zeta. split; [unfold valid; cbn; lia|]. split; [cbn; lia|]. vm_compute. reflexivity. Qed.
+
+Example C09_mqtt_nonvacuous :
+  nondecr_ops 0 [(0, 40); (0, 70); (5, 1); (1000000000, 64)] /\
+  mrun_hist 1000000000 2 100 0 0 0 [(0, 40); (0, 70); (5, 1); (1000000000, 64)] [] = [(1, 64); (0, 70); (0, 40)].
+Proof. split; [cbn; lia | vm_compute; reflexivity]. Qed.
